@@ -144,6 +144,11 @@ func mergeRuns(dst, src *HarnessRun) {
 	for k := range src.ReachDecl {
 		dst.ReachDecl[k] = true
 	}
+	for k, m := range src.PossDecl {
+		if _, ok := dst.PossDecl[k]; !ok {
+			dst.PossDecl[k] = m
+		}
+	}
 	for k := range src.Reached {
 		if !dst.Reached[k] {
 			dst.Reached[k] = true
@@ -260,11 +265,7 @@ func runAll(l *loaded, hs []harnessInfo, jobs int) ([]*HarnessRun, []string, sol
 	stats := make([]string, len(hs))
 	for i, h := range hs {
 		r := results[i]
-		for lab := range r.ReachDecl {
-			if !r.Reached[lab] {
-				r.Inconclusive = append(r.Inconclusive, "vacuity: witness not reachable: "+lab)
-			}
-		}
+		finishReach(r)
 		q := hq[i]
 		tot.wall += q.wall
 		tot.sat += q.sat
